@@ -60,4 +60,13 @@ PROPS = {
         "not_decided": ["floating-point behaviour of floor at grid nodes of a logarithmic grid"],
         "assumptions": COMMON_ASSUMPTIONS + ["array extents >= 2 along interpolated axes (grids with one point are a C12 matter)"],
     },
+    "C16": {
+        "contracts": ["lcm.grids.LinspaceGrid", "lcm.grids.LogspaceGrid", "lcm.grids.DiscreteGrid", "lcm.grid_helpers.linspace"],
+        "families": {
+            "quick": "continuous: start/stop kinds {int, float, +inf, -inf, nan, non-numeric} x n_points kinds {int, non-numeric}; discrete: category classes with <= 2 fields of kinds {int, float, bool, str, missing} and non-dataclasses. Numeric values symbolic (all ints / reals).",
+            "thorough": "continuous: start/stop kinds {int, float, bool, +inf, -inf, nan, non-numeric} x n_points kinds {int, bool, float, non-numeric}; discrete: <= 3 fields. Plus CPython differential.",
+        },
+        "not_decided": ["float32 representability (collapse of very close bounds, overflow of huge ones)", "category classes without any field (the statement does not determine them)"],
+        "assumptions": COMMON_ASSUMPTIONS + ["symbolic float values are finite reals; +inf, -inf and nan are separate concrete cases", "ground instances of Real.exp_log, Real.log_exp, Real.exp_lt_exp, Real.log_lt_log (Mathlib) for the logarithmic scale"],
+    },
 }
